@@ -174,13 +174,14 @@ def make(cfg, outdir, **kw):
     like = ll_blob if cfg.get("blobs") else ll
     return Sampler(pt, like, n_dim=2, n_particles=12, clustering=cfg.get("clustering", False),
                    sample=cfg.get("sample", "tpcn"), resample=cfg.get("resample", "mult"),
-                   blobs_dtype=float if cfg.get("blobs") else None, pool=PoolLike() if cfg.get("pool") else None,
+                   blobs_dtype=float if cfg.get("blobs") else None, pool=(cfg["pool"] if isinstance(cfg.get("pool"), int) and not isinstance(cfg.get("pool"), bool) else PoolLike()) if cfg.get("pool") else None,
                    output_dir=str(outdir), output_label="ck", **kw)
 
 
 def roundtrip_and_resume(run, tier, rng, work):
     from tempest.tools import effective_sample_size
-    cfgs = [dict(), dict(pool=True), dict(blobs=True, sample="rwm"), dict(clustering=True, resample="syst")]
+    # pool=2 is the integer form: the library creates real worker processes itself
+    cfgs = [dict(), dict(pool=True), dict(blobs=True, sample="rwm"), dict(clustering=True, resample="syst"), dict(pool=2)]
     if tier != "quick":
         cfgs += [dict(pool=True, blobs=True), dict(clustering=True, pool=True, sample="rwm"), dict(resample="syst", sample="rwm")]
     for ci, cfg in enumerate(cfgs):
